@@ -881,6 +881,10 @@ static void
 orc_parse_advance (OrcParser *parser)
 {
   parser->p += parser->line_length;
+  /* \r\n is one line ending */
+  if (parser->p[0] == '\r' && parser->p[1] == '\n') {
+    parser->p++;
+  }
   if (parser->p[0] == '\n' || parser->p[0] == '\r') {
     parser->p++;
   }
